@@ -251,6 +251,9 @@ func checkColorRecord(rc recCase, payloads []string, pan string) (clause, detail
 		if vs.Kind == "error" || vs.Kind == "fallback" {
 			continue // error text is coloured/quoted, the fallback is free-form: presence only
 		}
+		if a.key == "time" && vs.Kind == "time" {
+			continue // an attribute named like the timestamp field is printed with the record's time layout: presence only
+		}
 		if r := vs.Logfmt(pr); r != "" {
 			return "layout/attr-value", fmt.Sprintf("attribute %q (%s): %s; record %.300q", a.key, a.node.V, r, head)
 		}
@@ -346,6 +349,9 @@ func c06cases(thorough bool, emit func(rc recCase)) {
 		[]attrNode{leaf("e", "error:nasty-text"), leaf("s", "string:esc")},
 		[]attrNode{leaf("e", "error:v3-with-stack")},
 		[]attrNode{leaf("b", "bytes:esc"), leaf("s", "struct")},
+		[]attrNode{leaf("a", "int:-1"), leaf("time", "time:utc-ns")},            // an attribute named like the timestamp field, last in key order
+		[]attrNode{leaf("time", "time:+05:30"), leaf("z", "string:plain")},       // ... and in the middle
+		[]attrNode{group("g", leaf("time", "time:utc-ns")), leaf("level", "int:-1")}, // ... inside a group
 		nil,
 	)
 	for _, m := range c06msgs {
